@@ -153,6 +153,8 @@ class World(object):
         self.last_cur_idx, self.last_cur_proto = 0, None
         self.auth = self._auth(c['user'], c['password'])
         self.rest_log = None
+        self.budget = None        # executed-lines budget per delivered chunk (harness/meter.py); None = not metered
+        self.last_work = 0
 
     # ------------------------------------------------------------------ helpers
     @staticmethod
@@ -284,10 +286,15 @@ class World(object):
         elif k == 'connLost':
             kk = self.conn(ev['c'])
             self.guarded(kk.lose, error.ConnectionDone() if kk.transport.disconnecting else error.ConnectionLost())
-        elif k == 'msg':
-            self.guarded(self.conn(ev['c']).deliver, self.peer_bytes(ev))
-        elif k == 'data':
-            self.guarded(self.conn(ev['c']).deliver, bytes.fromhex(ev['hex']))
+        elif k in ('msg', 'data'):
+            data = self.peer_bytes(ev) if k == 'msg' else bytes.fromhex(ev['hex'])
+            if self.budget:
+                import meter
+                _, self.last_work, over = meter.meter().run(self.guarded, self.conn(ev['c']).deliver, data, budget=self.budget)
+                if over:
+                    W.errors.append('HANG')
+            else:
+                self.guarded(self.conn(ev['c']).deliver, data)
         elif k == 'tick':
             self.nticks += ev.get('n', 1)
             W.now = self.nticks * self.tick
